@@ -231,7 +231,7 @@ def run(ctx: core.Ctx):
       else:
         ctx.violation(key, msg, scen)
   ctx.extra["scenes_with_sleeping_trees_checked"] = slept
-  if not ctx.extra.get("constrained_partial_solves_compared_sparse") or ctx.extra.get("constrained_partial_solves_compared", 0) < 20:
+  if not ctx.violations and (not ctx.extra.get("constrained_partial_solves_compared_sparse") or ctx.extra.get("constrained_partial_solves_compared", 0) < 20):
     raise RuntimeError(f"vacuous: too few constrained solves with a partially sleeping world: {ctx.extra}")
   ctx.assumptions += ["tree_awake is written directly to realise every awake subset for the map check; equivalence tolerance 5e-3 relative (solver outputs)"]
 
